@@ -153,7 +153,15 @@ pub fn execute(sh: &Shared, hist: &[Op]) -> St {
             true
         }
         Err(p) => {
-            sh.record(Vio { prop: "HX".into(), oracle: "harness-panic".into(), msg: format!("unguarded panic in phase {}: {}", phase, panic_msg(&p)) }, hist, phase);
+            // An operation the reference model considers valid (every forged / stale / faulting call is caught individually by
+            // the probes) panicked. If the panic was raised inside the library's own sources, that is the library refusing a
+            // legitimate call - a violation of whatever is being decided; raised anywhere else it is the harness' own failure.
+            let loc = crate::sys::last_panic_location();
+            if crate::sys::location_in_library(&loc) && !sh.sc.props.is_empty() {
+                sh.record(Vio { prop: sh.sc.props.join(","), oracle: "library-panicked-on-legitimate-call".into(), msg: format!("in phase {} a call the model considers legitimate panicked inside the library at {}: {}", phase, loc, panic_msg(&p)) }, hist, phase);
+            } else {
+                sh.record(Vio { prop: "HX".into(), oracle: "harness-panic".into(), msg: format!("unguarded panic in phase {} (raised at {}): {}", phase, loc, panic_msg(&p)) }, hist, phase);
+            }
             true
         }
     };
